@@ -156,6 +156,9 @@ def step (_ : Unit) (line : String) : Unit × String :=
     | ["tamper", _, _] => "-"
     | ["forged", _, _, _] => "-"
     | ["combine", a, b] => doCombine a b
+    -- the lock of ONE of the node directories was altered in a hashed field (its stored hashes kept): whatever the number of
+    -- shares, the combine command verifies every lock it loads and must refuse (C12: tamper evidence)
+    | ["combinet", a, b, _] => (match kvNat "t" a, kvNat "shares" b with | some _, some _ => "refuse" | _, _ => "bad-op")
     | "create" :: _ => "-"
     | _ => "bad-op"
   ((), out)
